@@ -149,7 +149,7 @@ theorem curveRaiseOrder_spec (o : Obj K) (tol : K) (b b' : Basis K) (a : ℕ) (h
       ∑ k ∈ Finset.range pts.size, (b'.evaluate tol t 0 true).getD k 0 * c' k c
         = ∑ j ∈ Finset.range n, (b.evaluate tol t 0 true).getD j 0 * o.cps.get (j * nc + c))
     (r : Ret) (o' : Obj K) (hcall : o.curveRaiseOrder tol (a : Int) = .ok (r, o')) :
-    r = .self ∧ o'.bases = #[b'] ∧ o'.rational = o.rational ∧
+    r = .self ∧ o'.bases = #[b'] ∧ o'.rational = o.rational ∧ o'.cps.shape = [pts.size, nc] ∧
       (∀ i, i < pts.size → ∀ c, c < nc → o'.cps.get (i * nc + c) = c' i c) ∧
       (∀ t, ∀ c, c < nc →
         ∑ k ∈ Finset.range pts.size, (b'.evaluate tol t 0 true).getD k 0 * o'.cps.get (k * nc + c)
@@ -209,7 +209,7 @@ theorem curveRaiseOrder_spec (o : Obj K) (tol : K) (b b' : Basis K) (a : ℕ) (h
       rw [ho']
       show (Obj.ofCpsMat C nc).get (i * nc + c) = _
       rw [ofCpsMat_get C nc i c (by omega) hc, hCe i hi c hc]
-    refine ⟨hr, by rw [ho'], by rw [ho'], hge, ?_⟩
+    refine ⟨hr, by rw [ho'], by rw [ho'], by rw [ho']; simp [Obj.ofCpsMat, hCsz], hge, ?_⟩
     intro t c hc
     rw [← H_incl t c hc]
     apply Finset.sum_congr rfl
@@ -294,12 +294,13 @@ theorem raiseGuard_ne_false (tol : K) (htol : 0 < tol) (b : Basis K) (rest : Lis
 /-! ## Statement shorthand and small facts for `C05_geometry_clamped` -/
 
 /-- "`o'` is `o` elevated from basis `b` to `b'`" (one parametric direction, `nc` homogeneous
-    components): same rationality, single basis `b'`, the homogeneous evaluated map
+    components): same rationality, single basis `b'`, a control net of the matching shape
+    `[b'.num_functions(), nc]`, the homogeneous evaluated map
     `Σ_k N'_k(t) P'_k` equals `Σ_j N_j(t) P_j` for EVERY parameter `t` and component (so also the
     projected rational map), and a component that is non-negative on all old control points
     (e.g. the weights) is non-negative on all new ones. -/
 def ElevatedFrom (tol : K) (b b' : Basis K) (nc : ℕ) (o o' : Obj K) : Prop :=
-  o'.bases = #[b'] ∧ o'.rational = o.rational ∧
+  o'.bases = #[b'] ∧ o'.rational = o.rational ∧ o'.cps.shape = [b'.numFunctions, nc] ∧
   (∀ t, ∀ c, c < nc →
     ∑ k ∈ Finset.range b'.numFunctions, (b'.evaluate tol t 0 true).getD k 0 * o'.cps.get (k * nc + c)
       = ∑ j ∈ Finset.range b.numFunctions, (b.evaluate tol t 0 true).getD j 0 * o.cps.get (j * nc + c)) ∧
